@@ -773,9 +773,8 @@ class _Namespaces:
     def __delitem__(self, prefix):
         """deletes CSSNamespaceRule(s) with rule.prefix == prefix"""
         delrule = self.__findrule(prefix)
-        for i, rule in enumerate(
-            filter(lambda r: r.type == r.NAMESPACE_RULE, self.parentStyleSheet.cssRules)
-        ):
+        # index must be the one in all cssRules, not only in @namespace rules
+        for i, rule in enumerate(self.parentStyleSheet.cssRules):
             if rule == delrule:
                 self.parentStyleSheet.deleteRule(i)
                 return
